@@ -21,6 +21,24 @@ def run(tier, rep):
     rep.add_tlc("MC_JSVM(VM pool, 2 goroutines)", r)
     if not vlib.tlc_ok(r, "MC_JSVM"):
         raise vlib.Inconclusive("JSVM.tla violates %s: specification problem" % r.violated)
+    # "running alone": a process of its own per item (plain build), for the items that come with an Extension of their
+    # own or use the functions an Extension may re-bind, and for a sample (quick) / all (thorough) of the others
+    recs, _ = vlib.run_vh(["c13-names"])
+    names = next(x["names"] for x in recs if x.get("kind") == "names")
+    pick = [n for n in names if n.startswith("c13/ext-") or n.startswith("c13/builtin-")]
+    pick += [n for n in names if n not in pick][:: 1 if thorough else 8]
+    alone = os.path.join(vlib.scratch(), "c14.alone.ndjson")
+    lines = []
+    for i, name in enumerate(pick):
+        out = os.path.join(vlib.scratch(), "c14.single%d.ndjson" % i)
+        vlib.run_vh(["c15-run", out, "900", "only=" + name])
+        got = vlib.read_ndjson(out)
+        if not got:
+            raise vlib.Inconclusive("no transcript from the single-item process of " + name)
+        lines.append({"item": name, "results": got[0]["results"]})
+        os.remove(out)
+    vlib.write_ndjson(alone, lines)
+    rep.notes.append("%d of %d goldens come from a process that ran nothing but the item" % (len(lines), len(names)))
     procs = ["1", "2", "4", "16"] if thorough else ["1", "4", "16"]
     for gi, gmp in enumerate(procs):
         G = {"1": 4, "2": 8, "4": 8, "16": 32}[gmp]
@@ -29,7 +47,7 @@ def run(tier, rep):
         racelog = os.path.join(vlib.scratch(), "race.%s" % gmp)
         died = None
         try:
-            recs, _ = vlib.run_vh(["c14-drive", tr, pool, str(G), "4" if thorough else "2"], race=True, timeout=3400,
+            recs, _ = vlib.run_vh(["c14-drive", tr, pool, str(G), "4" if thorough else "2", alone], race=True, timeout=3400,
                                   env={"GOMAXPROCS": gmp, "GORACE": "exitcode=0 halt_on_error=0 log_path=" + racelog})
         except (vlib.Inconclusive, vlib.RepoCrash) as e:
             # the process may die of what the race detector has just reported (e.g. "concurrent map writes"): the report decides
@@ -56,8 +74,8 @@ def run(tier, rep):
         for rj in vlib.validate_traces(rep, "Trace_Runs", "Trace_Runs.cfg", tr, name="Trace_Runs(GOMAXPROCS=%s)" % gmp, timeout=3000):
             ev = rj["failing_event"]
             rep.violation({"property": "C14", "key": "concurrent-result-differs:" + str(ev.get("item")), "kind": "b3",
-                           "summary": "%s: goroutine %s (%s, GOMAXPROCS=%s) obtained results different from the serial run" % (ev.get("item"), ev.get("goroutine"), ev.get("phase"), gmp),
-                           "results": ev.get("results"), "serial": rj["events"][0].get("results")})
+                           "summary": "%s: goroutine %s (%s, GOMAXPROCS=%s) obtained results different from those of the run alone (a process of its own where available, else the serial run)" % (ev.get("item"), ev.get("goroutine"), ev.get("phase"), gmp),
+                           "results": ev.get("results"), "alone": rj["events"][0].get("results")})
         # ownership protocol on (a prefix of) the real pool events
         evs = vlib.read_ndjson(pool)[:12000]
         # cut at a point where nothing is owned would be ideal; a prefix is fine for a safety check
